@@ -1,0 +1,18 @@
+// Verification contracts (comment-only, compiled only with the "verif" build tag; read by /verif/govc).
+
+//go:build verif
+// +build verif
+
+package state
+
+// Contracts for sync.go — property C19: the leaf callback of the state sync registers, for every account leaf, the storage trie, the code
+// and (when the account has one) the delegations blob, each linked to the trie node that holds the leaf (so that node is not committed
+// before they are).
+
+// rlp.Decode into an Account: outside the model (C14); only the decoded record is used.
+//@ effectfree bytes.NewReader
+
+//@ func NewStateSync$1 props C19
+//@ assert before call (*trie.Sync).AddSubTrie: [storage-trie-under-leaf-parent] a1 == obj.Root && a3 == parent && a4 == nil
+//@ assert before call (*trie.Sync).AddRawEntry#1: [code-under-leaf-parent] a3 == parent
+//@ assert before call (*trie.Sync).AddRawEntry#2: [delegations-under-leaf-parent] a3 == parent
